@@ -22,8 +22,10 @@ CLAIMS = {
  "C09": dict(
    text="Theorems for all byte strings: make_command yields exactly verb SP text (one CR LF on the wire, at the end) when the text has no "
         "CR/LF and refuses any text containing CR or LF. Correspondence: real client::make_command on exhaustive small alphabets, injection "
-        "strings and random byte strings (client-level wire check to be added with the client harness).",
-   note="This registered part covers the command-building step; the per-call wire-level check is added by the client-level stage.", ref="DESIGN.md section 7 C09"),
+        "strings and random byte strings. Client level (theorems for every API call in every state): every write is exactly one line "
+        "+ CR LF; a call with CR/LF in any caller text throws before anything is sent or opened; text is transmitted unchanged. "
+        "Correspondence: raw bytes written to the in-memory control transport for every text-taking call x injection strings.",
+   note="Caller texts are the arguments of the public API; the library's own verbs are constants.", ref="DESIGN.md section 7 C09"),
  "C05": dict(
    text="Theorems for every byte string and every chunking: ascii_istream model (internal buffer >= 1, any short-read pattern of the source, "
         "any caller buffer sizes) emits exactly the whole-string substitution CR LF|CR|LF -> CR LF and its read loop terminates; "
@@ -89,6 +91,21 @@ CLAIMS = {
         "accounted for by connect / close events. Correspondence: libc interposition (socket/accept/close) on long random histories mixing "
         "successful, refused, cancelled and failing transfers in all four methods; descriptor count after each call and after destruction.",
    note="Kernel descriptor semantics are observed, not modelled; TLS data sockets are exercised by the C11/C18 stages.", ref="DESIGN.md section 7 C17"),
+ "C10": dict(
+   text="Theorems for every API call that returns, in every state, against every server: the command lines written are exactly those of "
+        "the reference automaton (Spec/RefAutomaton.lean) driven by the reply codes actually received; every reply received is returned in "
+        "order; the reported transfer type changes only on a positively answered TYPE command; connect with a user name = connect then "
+        "login. Correspondence: login x 15 reply codes at each step, rename, TYPE and every simple call x every code, both types, random "
+        "histories; real client vs. model vs. reference automaton.",
+   note="TLS variants of connect / login (AUTH TLS, PBSZ, PROT) are in the C11 layer.", ref="DESIGN.md section 7 C10"),
+ "C20": dict(
+   text="Theorems over the application model for every input script, server and directory: the program ends with success status and only "
+        "at `exit` or end of input; a connection-needing command while disconnected answers 'Connection is not open.' and changes "
+        "nothing; `get` never changes or removes an existing entry, refuses an existing name before sending anything, and removes the "
+        "file of a refused download; a library error drops the connection. Correspondence: the real cmdline binary (built from the tree) "
+        "as a subprocess against the scripted server: stdout, exit status, directory before/after, commands seen by the server.",
+   note="The message of an ftp_exception and the help text are wild cards in the stdout comparison; the real file system is observed, "
+        "the model knows plain names only (no sub-directories, no symlinks).", ref="DESIGN.md section 7 C20"),
 }
 PENDING = "check not built yet (work in progress; see DESIGN.md section 12)"
 
